@@ -48,10 +48,24 @@ def run(ctx) -> None:
     ctx.section("construction", _construction, ctx)
     ctx.section("joins", _joins, ctx)
     ctx.section("groups", _groups, ctx)
+    ctx.section("sanitiser", _sanitiser_stateless, ctx)
     ctx.section("selections", _selections, ctx)
     ctx.info("Table == Table builds its result with positional arguments Vector(data, False, bool, True): the comparison TABLE is named "
              "<class 'bool'>; the statement speaks of comparisons between vectors - reported as information only")
     ctx.not_decided.append("the concrete suffix numbers chosen by uniquify")
+
+
+def _sanitiser_stateless(ctx) -> None:
+    prog = ctx.prog
+    f = prog.func("naming._sanitize_user_name")
+    local = set(Defs(f).assigns)
+    allowed = {"re", "_get_reserved_names", "str", "isinstance", "None", "True", "False"}
+    bad = sorted({n.id for n in walk_no_nested(f.node) if isinstance(n, ast.Name) and n.id not in local and n.id not in allowed})
+    glob = [s for s in walk_stmts(f.body) if isinstance(s, (ast.Global, ast.Nonlocal))]
+    ctx.ob("g.aggregate-window", f, "sanitiser-stateless", not bad and not glob,
+           "_sanitize_user_name is a pure function of the name (no module-level state)", f.node,
+           message=f"_sanitize_user_name reads module-level state {bad}: output names of aggregate/window would depend on what was "
+                   f"sanitised before (a memo keyed by the raw name conflates 1, 1.0 and True)")
 
 
 def _is_none_name(s) -> bool:
@@ -62,6 +76,15 @@ def _math(ctx) -> None:
     prog = ctx.prog
     for s in all_sites(prog):
         q = s.func.qualname
+        if q in MATH_FUNCS and s.kind == "copy":
+            from .c03 import _ndims_guard
+            recv = short(s.call.func.value)
+            if _ndims_guard(Resolver(prog, s.func), s.call, recv):
+                continue                       # per-column recursion on tables
+            ok = s.name_given and isinstance(s.name, ast.Constant) and s.name.value is None
+            ctx.ob("a.math-unnamed", s.func, f"copy:{s.call.lineno - s.func.lineno}", ok, "unnamed result", s.call,
+                   message=f"{q}: `{short(s.call, 70)}` returns a copy that KEEPS the operand's name as the result of a binary operation")
+            continue
         if q not in MATH_FUNCS or s.kind != "Vector":
             continue
         ctx.ob("a.math-unnamed", s.func, f"site:{s.call.lineno - s.func.lineno}", _is_none_name(s), "unnamed result", s.call,
